@@ -876,13 +876,13 @@ def esccall(repo: Repo) -> List[Ob]:
     obs: List[Ob] = []
     sites = 0
     for fi in repo.scan_functions():
-        if fi.module.name != "photon_weave.state.composite_envelope" or fi.cls is None:
+        if fi.cls is None or fi.cls.name not in ("ProductState", "CompositeEnvelope", "CompositeEnvelopeContainer"):
             continue
         calls = []
         for n in walk_no_nested(fi.node):
             if isinstance(n, ast.Call):
                 d = dotted(n.func) or ""
-                if "." in d and resolve_alias(d, fi).startswith("photon_weave.extra.einsum_constructor."):
+                if "." in d and (resolve_alias(d, fi).startswith("photon_weave.extra.einsum_") or (d.split(".")[0] == "ESC" and d.split(".")[-1] in GENERATORS)):
                     calls.append((n, d.split(".")[-1]))
         if not calls:
             continue
@@ -945,6 +945,21 @@ def esccall(repo: Repo) -> List[Ob]:
                     if ds and getattr(ds[-1], "value", None) is not None:
                         # nearest preceding definition (shape = [...]; shape.append(1))
                         a = ds[-1].value
+                # `targets = list(states)` / `tuple(states)`: a plain copy of the operand tuple is the operand tuple
+                va_ = fi.node.args.vararg.arg if fi.node.args.vararg else None
+                if va_:
+                    from ..model import single_defs as _sd2
+                    copies = {k_ for k_, v_ in _sd2(fi.node).items() if (isinstance(v_, ast.Call) and isinstance(v_.func, ast.Name) and v_.func.id in ("list", "tuple") and len(v_.args) == 1
+                                                                          and src(v_.args[0]) == va_) or src(v_) == va_}
+                    copies = {k_ for k_ in copies if not any(method_call(c_) and src(method_call(c_)[0]) == k_ and method_call(c_)[1] in ("sort", "reverse", "append", "extend", "insert", "remove", "pop", "clear")
+                                                             for c_ in walk_no_nested(fi.node))}
+                    if copies:
+                        import copy as _cp
+
+                        class _V(ast.NodeTransformer):
+                            def visit_Name(self, nn):
+                                return ast.copy_location(ast.Name(id=va_, ctx=nn.ctx), nn) if nn.id in copies and isinstance(nn.ctx, ast.Load) else nn
+                        a = _V().visit(_cp.deepcopy(a))
                 t = src(a)
                 recv = src(mc[0])
                 if ".dimensions for" in t:
